@@ -70,6 +70,7 @@ type LoopInfo struct {
 	modArrs   map[string]*loopArr
 	modIters  map[*ssa.Range]bool
 	modGhost  map[string]*Sort
+	head      *State // state right after the havoc at the loop head
 	// range-over-func loops synthesised at the iterator call
 	RangeFunc *ssa.Function
 	rfKeys    *Term
@@ -965,6 +966,7 @@ func (ft *FuncTr) block(b *ssa.BasicBlock) error {
 			ft.assume(preAt, ft.typeInv(st, st.locals[a], ty))
 		}
 		at = preAt
+		l.head = st.clone()
 		envH := ft.newEnv(st)
 		envH.loop = l
 		envH.pre = pre
